@@ -5,6 +5,7 @@
 -/
 import AisVerif.Model.Sentence
 import AisVerif.Model.Cli
+import AisVerif.Spec.Layouts
 
 open AisVerif
 
@@ -113,6 +114,78 @@ def resTableOf (name : String) : Option (Nat → Res Val) :=
   else if name = "cs" then some CarrierSense.parse
   else none
 
+/-! ### exhaustive field sweeps (`X` op) -/
+
+/-- The scaled-field table proved for each type (`Props/C10.lean`, `Props/C11.lean`). -/
+def scaledOf (t : Nat) : List Spec.ScaledSpec :=
+  if t = 1 ∨ t = 2 ∨ t = 3 then Spec.Scaled.t01
+  else if t = 4 ∨ t = 11 then Spec.Scaled.t04
+  else if t = 5 then Spec.Scaled.t05
+  else if t = 9 then Spec.Scaled.t09
+  else if t = 17 then Spec.Scaled.t17
+  else if t = 18 ∨ t = 19 then Spec.Scaled.t18
+  else if t = 21 then Spec.Scaled.t21
+  else if t = 27 then Spec.Scaled.t27
+  else []
+
+def sweepLen (t : Nat) : Nat :=
+  if t = 5 then 53 else if t = 19 then 39 else if t = 21 then 34 else if t = 27 then 12 else if t = 17 then 15 else 21
+
+/-- Deterministic background payload: type in the first six bits, a fixed pattern elsewhere. -/
+def background (t n : Nat) : List UInt8 :=
+  (List.range n).map fun i => if i = 0 then UInt8.ofNat (t * 4) else UInt8.ofNat (((i * 37) % 256) ^^^ 0x5a)
+
+def fnv (h : UInt64) (b : UInt64) : UInt64 := (h ^^^ b) * 1099511628211
+
+def fnvVal (h : UInt64) (v : Option Val) : UInt64 × Nat :=
+  match v with
+  | some (.f32 raw op) =>
+    let bits := (f32Bits raw op).toUInt64
+    (fnv (fnv (fnv (fnv (fnv h 1) (bits &&& 255)) ((bits >>> 8) &&& 255)) ((bits >>> 16) &&& 255)) ((bits >>> 24) &&& 255), 0)
+  | some .none => (fnv h 0, 1)
+  | _ => (fnv h 2, 0)
+
+/-- Mode `r`: `ScaledSpec.renderRaw` on the raw value itself (`render_eq_renderRaw`); no payload is built. -/
+partial def sweepRaw (e : Spec.ScaledSpec) (lo hi : Nat) : String :=
+  let rec go (raw : Nat) (h : UInt64) (absent : Nat) : UInt64 × Nat :=
+    if raw < hi then
+      let (h', a) := fnvVal h (some (e.renderRaw raw))
+      go (raw + 1) h' (absent + a)
+    else (h, absent)
+  let (h, a) := go lo 14695981039346656037 0
+  "ok " ++ toString (hi - lo) ++ " " ++ toString a ++ " " ++ toString h.toNat
+
+/-- `X mode type index key off w lo hi`: every raw value in `[lo, hi)` of the `index`-th scaled field of
+    the type, written into the background payload; mode `s` evaluates the specification
+    (`ScaledSpec.render`) on that payload, mode `m` the whole model (`parseMessage`) and looks the field up. -/
+partial def sweep (cfg : Cfg) (useModel : Bool) (t : Nat) (e : Spec.ScaledSpec) (lo hi : Nat) : String :=
+  let n := sweepLen t
+  let bg := background t n
+  let b0 := e.off / 8
+  let b1 := (e.off + e.w - 1) / 8
+  let k := b1 - b0 + 1
+  let sh := 8 * (b1 + 1) - (e.off + e.w)
+  let pre := bg.take b0
+  let post := bg.drop (b1 + 1)
+  let midAll := ((bg.drop b0).take k).foldl (fun acc b => acc * 256 + b.toNat) 0
+  let midBase := midAll - (((midAll >>> sh) % 2 ^ e.w) <<< sh)
+  let rec go (raw : Nat) (h : UInt64) (absent : Nat) : UInt64 × Nat :=
+    if raw < hi then
+      let v := midBase + (raw <<< sh)
+      let mid := (List.range k).map fun j => UInt8.ofNat ((v >>> (8 * (k - 1 - j))) % 256)
+      let bs := pre ++ mid ++ post
+      let val : Option Val :=
+        if useModel then
+          match parseMessage cfg bs with
+          | .ok m => (m.fields.find? (fun kv => kv.1 == e.key)).map (·.2)
+          | _ => none
+        else some (e.render bs)
+      let (h', a) := fnvVal h val
+      go (raw + 1) h' (absent + a)
+    else (h, absent)
+  let (h, a) := go lo 14695981039346656037 0
+  "ok " ++ toString (hi - lo) ++ " " ++ toString a ++ " " ++ toString h.toNat
+
 structure St where
   cfg : Cfg
   slots : List PState
@@ -161,6 +234,19 @@ def handle (s : St) (line : String) : St × String :=
     | some bs => (s, "ok " ++ toString (splitNewline bs).length ++ " " ++
         String.intercalate "," ((splitNewline bs).map fun l => if l.isEmpty then "-" else hexOfBytes l))
     | none => (s, "bad-op")
+  | ["X", mode, t, idx, key, off, w, lo, hi] =>
+    match t.toNat?, idx.toNat?, off.toNat?, w.toNat?, lo.toNat?, hi.toNat? with
+    | some t, some idx, some off, some w, some lo, some hi =>
+      match (scaledOf t)[idx]? with
+      | some e =>
+        -- the harness is told where the field is by the caller; it must be where the proved table says
+        if e.off = off ∧ e.w = w ∧ keyName e.key = key ∧ hi ≤ 2 ^ w then
+          if mode = "r" then (s, sweepRaw e lo hi)
+          else if mode = "s" ∨ mode = "m" then (s, sweep s.cfg (mode = "m") t e lo hi)
+          else (s, "bad-op")
+        else (s, "bad-op")
+      | none => (s, "bad-op")
+    | _, _, _, _, _, _ => (s, "bad-op")
   | ["N", k] =>
     match k.toNat? with
     | some k => (setSlot s k PState.init, "ok")
